@@ -21,7 +21,7 @@ Two habits of the recorders: (1) objects the library returns are KEPT, not copie
 (Raw / Rec.settle): a result that a later call on the same object overwrites, or that is the same mutable object as another
 result or an argument, is then seen; (2) every option compared with a constant (padding strings, mode names, block_size,
 segment size, keys) is handed over both as the module constant / literal and as an EQUAL object built at run time."""
-import io, os, json, shutil, subprocess, concurrent.futures as cf
+import io, os, sys, json, zlib, shutil, threading, subprocess, concurrent.futures as cf
 
 from ..common import SPEC, Scratch, rng, MachineryError
 from ..report import Report
@@ -186,6 +186,53 @@ def blocks(n):
     return (n + 15) // 16
 
 
+# ------------------------------------------------------------------------------------------------ keys that collide under cheap digests
+def collision_pairs(r):
+    """Pairs of DIFFERENT keys of equal length (16, 24, 32) that agree under the cheap digests somebody might key a cache
+    or a table with: CRC-32, Adler-32, low 32 bits of hash() (birthday search, < 1 s), sum / xor / multiset of the bytes, first /
+    last 4 and 8 bytes.  Both keys of a pair are used back to back on fresh objects; every result is judged as any other."""
+    def birthday(n, digest, limit=800000):
+        seen = {}
+        for _ in range(limit):
+            k = r.randbytes(n)
+            d = digest(k)
+            o = seen.get(d)
+            if o is not None and o != k:
+                return o, k
+            seen[d] = k
+        return None
+
+    pairs = []
+    for n in (16, 24, 32):
+        for name, dg in (("crc32", zlib.crc32), ("adler32", zlib.adler32), ("hash32", lambda k: hash(k) & 0xFFFFFFFF)):
+            pr = birthday(n, dg)
+            if pr:
+                pairs.append((name, pr[0], pr[1]))
+        k = bytearray(r.randbytes(n))
+        i, j = r.sample(range(n), 2)
+        while k[i] == k[j]:
+            k[j] = (k[j] + 1) % 256
+        q = bytearray(k)
+        q[i], q[j] = k[j], k[i]
+        pairs.append(("same-bytes-permuted", bytes(k), bytes(q)))     # equal sum, xor, sorted bytes
+        q = bytearray(k)
+        q[i] ^= 0x5A
+        q[j] ^= 0x5A
+        pairs.append(("xor-of-bytes", bytes(k), bytes(q)))
+        k[i], k[j] = (k[i] % 200) + 1, (k[j] % 200) + 20
+        q = bytearray(k)
+        q[i] += 17
+        q[j] -= 17
+        pairs.append(("sum-of-bytes", bytes(k), bytes(q)))
+        for name, keep in (("first-4-bytes", slice(0, 4)), ("last-4-bytes", slice(n - 4, n)), ("first-8-bytes", slice(0, 8)), ("all-but-last-byte", slice(0, n - 1))):
+            a, b = bytearray(r.randbytes(n)), bytearray(r.randbytes(n))
+            b[keep] = a[keep]
+            if a == b:
+                b[n - 1 if keep.stop != n else 0] ^= 1
+            pairs.append((name, bytes(a), bytes(b)))
+    return pairs
+
+
 # ------------------------------------------------------------------------------------------------ part 1: block cipher
 NIST_BLOCKS = [  # (key, plaintext): FIPS-197 App. B, C.1-C.3; SP 800-38A F.1.1/F.1.3/F.1.5 first block.  Inputs only.
     ("2b7e151628aed2a6abf7158809cf4f3c", "3243f6a8885a308d313198a2e0370734"),
@@ -199,7 +246,7 @@ NIST_BLOCKS = [  # (key, plaintext): FIPS-197 App. B, C.1-C.3; SP 800-38A F.1.1/
 ]
 
 
-def record_cipher(rec, rep, r, tier, pool):
+def record_cipher(rec, rep, r, tier, pool, pairs=()):
     aes, _, _ = _real()
     AES = aes.AES
     # tables, entry by entry
@@ -224,7 +271,7 @@ def record_cipher(rec, rep, r, tier, pool):
 
     hist = [0]
 
-    def history(key, pts, one_object, decrypt_only=False):
+    def history(key, pts, one_object, decrypt_only=False, tag=""):
         """Several blocks through ONE cipher object (or a fresh one per call): all encrypt calls, then all decrypt calls
         (each fed with the very object encrypt returned), and only then is anything converted or recorded."""
         hist[0] += 1
@@ -255,10 +302,10 @@ def record_cipher(rec, rep, r, tier, pool):
         for j, pt in enumerate(pts):
             if decrypt_only:
                 rec.add({"op": "dblk", "key": list(key), "ct": list(pt), "arg": Raw("arg", args[j]), "pt": Raw("res", ds[j]), "alias": 0,
-                         "hist": hist[0], "one": int(one_object)}, cost=12)
+                         "hist": hist[0], "one": int(one_object), "tag": tag}, cost=12)
             else:
                 rec.add({"op": "blk", "key": list(key), "pt": list(pt), "arg": Raw("arg", args[j]), "ct": Raw("res", cs[j]), "dt": Raw("res", ds[j]),
-                         "alias": 0, "hist": hist[0], "one": int(one_object)}, cost=12)
+                         "alias": 0, "hist": hist[0], "one": int(one_object), "tag": tag}, cost=12)
         rec.settle()
 
     for j, (key, pt) in enumerate(cases):
@@ -271,6 +318,14 @@ def record_cipher(rec, rep, r, tier, pool):
     for ks in (16, 24, 32):
         for j in range(n // 4):
             history(rb(r, ks), [rb(r, 16), rb(r, 16)], one_object=(j % 3 != 2), decrypt_only=True)
+    # keys that collide under cheap digests, back to back on fresh objects, in both orders (a schedule cached under a digest
+    # of the key would be handed to the other key)
+    for name, k1, k2 in pairs:
+        pt = rb(r, 16)
+        for key in (k1, k2, k2, k1):
+            history(key, [pt], one_object=True, tag="key-collision-" + name)
+        history(k1, [pt], one_object=True, decrypt_only=True, tag="key-collision-" + name)
+        history(k2, [pt], one_object=True, decrypt_only=True, tag="key-collision-" + name)
     # oracle: AES.tla itself against OpenSSL (independent of pyaes)
     nk = 250 if tier == "thorough" else 70
     jobs = []
@@ -373,7 +428,7 @@ def mode_sizes(r, mode, seg, total, with_bad=True):
     return sizes
 
 
-def record_modes(rec, r, tier, oracle_jobs):
+def record_modes(rec, r, tier, oracle_jobs, pairs=()):
     aes, _, _ = _real()
     reps = 24 if tier == "thorough" else 3
     segs = [1, 2, 3, 5, 8, 16] + ([4, 7, 11, 13] if tier == "thorough" else [])
@@ -403,6 +458,13 @@ def record_modes(rec, r, tier, oracle_jobs):
             for sizes in ([5, 15, 20], [40]):
                 drive_mode(rec, r, aes, "ctr", key, c.to_bytes(16, "big"), 0, "enc", data, sizes, tag="ctr-%x" % c, oracle_jobs=oracle_jobs if sizes == [40] else None)
         drive_mode(rec, r, aes, "ctr", key, (1).to_bytes(16, "big"), 0, "enc", data, [7, 33], none_iv=True, tag="ctr-iv-none")
+    # colliding keys through the modes: the same iv and data under k1 then k2 (thorough: every mode for every pair)
+    allm = [("ecb", 0), ("cbc", 0), ("cfb", 16), ("ofb", 0), ("ctr", 0), ("cfb", 1)]
+    for j, (name, k1, k2) in enumerate(pairs):
+        for mode, seg in (allm if tier == "thorough" else [allm[j % 5]]):
+            iv, data = (b"" if mode == "ecb" else rb(r, 16)), rb(r, 32)
+            for key in (k1, k2):
+                drive_mode(rec, r, aes, mode, key, iv, seg, "enc" if j % 2 == 0 else "dec", data, [16, 16], tag="key-collision-" + name, oracle_jobs=oracle_jobs)
     # documented defaults: iv None = zero IV, default counter = 1
     for mode, seg in (("cbc", 0), ("ofb", 0), ("ctr", 0), ("cfb", 1), ("cfb", 16)):
         key = rb(r, 16)
@@ -647,7 +709,7 @@ def record_streams(rec, r, tier, shapes):
 
 
 # ------------------------------------------------------------------------------------------------ part 4: adapter
-def record_adapter(rec, r, tier):
+def record_adapter(rec, r, tier, pairs=()):
     _, _, bc = _real()
 
     class Broken:                                                  # stands in for an object the library failed to create
@@ -672,7 +734,7 @@ def record_adapter(rec, r, tier):
             out, err, cls = b"", 1, type(ex).__name__
         # data may be the very object an earlier call returned (passed on without a copy); nothing is converted before settle()
         ev = {"op": "ad.call", "key": list(key), "iv": list(iv or b""), "fn": fn, "data": list(data) if isinstance(data, bytes) else Raw("fwd", data),
-              "out": Raw("res", out), "err": err, "cls": cls, "alias": 0}
+              "out": Raw("res", out), "err": err, "cls": cls, "alias": 0, "tag": ""}
         ev.update(extra)
         rec.add(ev, cost=blocks(rlen(data)) + 2)
         return out if byteslike(out) else b""
@@ -702,14 +764,14 @@ def record_adapter(rec, r, tier):
                     enc2 = o2.encrypt(d)
                 except Exception as ex:                            # noqa
                     rec.add({"op": "ad.call", "key": list(key), "iv": list(iv or b""), "fn": "encrypt", "data": list(d), "out": [], "err": 1,
-                             "cls": type(ex).__name__, "alias": 0, "hist": -1, "pos": 0, "shared": shared, "obj": 0})
+                             "cls": type(ex).__name__, "alias": 0, "hist": -1, "pos": 0, "shared": shared, "obj": 0, "tag": ""})
                     continue
                 rec.add({"op": "ad.rt", "key": list(key), "iv": list(iv or b""), "data": list(d), "enc": Raw("res", enc), "dec": Raw("res", dec),
                          "kind": kind, "shared": shared}, cost=2 * blocks(n) + 2)
                 rec.add({"op": "ad.call", "key": list(key), "iv": list(iv or b""), "fn": "mac", "data": list(d), "out": Raw("res", mac), "err": 0, "cls": "",
-                         "alias": 0, "hist": -1, "pos": 2, "shared": shared, "obj": 0}, cost=blocks(n) + 2)
+                         "alias": 0, "hist": -1, "pos": 2, "shared": shared, "obj": 0, "tag": ""}, cost=blocks(n) + 2)
                 rec.add({"op": "ad.call", "key": list(key), "iv": list(iv or b""), "fn": "encrypt", "data": list(d), "out": Raw("res", enc2), "err": 0, "cls": "",
-                         "alias": 0, "hist": -1, "pos": 3, "shared": shared, "obj": 1 - shared}, cost=blocks(n) + 2)
+                         "alias": 0, "hist": -1, "pos": 3, "shared": shared, "obj": 1 - shared, "tag": ""}, cost=blocks(n) + 2)
                 rec.settle()
     # deterministic histories on ONE object: the same inputs revisited after every other kind of call (mac after encrypt,
     # mac after mac, short mac after mac, decrypt after mac, encrypt after decrypt, ...), then once more on a fresh object
@@ -763,6 +825,64 @@ def record_adapter(rec, r, tier):
             call(o, key, iv, "mac", d, hist=hist, pos=1, shared=1, obj=0)
             call(o, key, iv, "decrypt", c or bytes(16 * blocks(n)), hist=hist, pos=2, shared=1, obj=0)
             call(create(key, iv), key, iv, "decrypt", rb(r, 16 * blocks(n)), hist=hist, pos=3, shared=0, obj=1)
+    # colliding 16-byte keys, back to back on fresh adapter objects (same iv and data), both orders
+    hist = 2000000
+    for name, k1, k2 in pairs:
+        if len(k1) != 16:
+            continue
+        iv, d, c = r.choice([None, rb(r, 16)]), datum("random", r.randint(17, 48)), rb(r, 32)
+        hist += 1
+        for pos, key in enumerate((k1, k2, k2, k1)):
+            o = create(key, iv)
+            for fn, x in (("encrypt", d), ("mac", d), ("decrypt", c)):
+                call(o, key, iv, fn, x, hist=hist, pos=pos, shared=0, obj=pos, tag="key-collision-" + name)
+        rec.settle()
+    # BEYOND THE STATED QUANTIFIER (calls, not instructions, interleave there): several threads pre-empted inside calls
+    # (switch interval 10 us) on ONE shared adapter object and on per-thread objects with the same key and iv; inputs are
+    # fixed beforehand, results are recorded per thread after all threads have ended and judged as ordinary ad.call events
+    nthreads, ncalls = 4, (120 if tier == "thorough" else 52)
+    key, iv = rb(r, 16), rb(r, 16)
+    shared_obj = create(key, iv)
+    plans = []
+    for t in range(nthreads):
+        plan = []
+        for j in range(ncalls):
+            fn = ("encrypt", "decrypt", "mac")[(j + t) % 3]
+            n = r.randint(200, 2000)
+            plan.append((fn, rb(r, n - n % 16 if fn == "decrypt" else n), j % 2))
+        plans.append(plan)
+    results = [[] for _ in range(nthreads)]
+    start = threading.Barrier(nthreads)
+
+    def worker(t):
+        own = create(key, iv)
+        try:
+            start.wait(timeout=60)
+        except Exception:                                          # noqa
+            pass
+        for fn, data, on_shared in plans[t]:
+            try:
+                results[t].append((getattr(shared_obj if on_shared else own, fn)(data), 0, ""))
+            except Exception as ex:                                # noqa
+                results[t].append((b"", 1, type(ex).__name__))
+
+    old_interval = sys.getswitchinterval()
+    sys.setswitchinterval(1e-5)
+    try:
+        ths = [threading.Thread(target=worker, args=(t,)) for t in range(nthreads)]
+        for th in ths:
+            th.start()
+        for th in ths:
+            th.join()
+    finally:
+        sys.setswitchinterval(old_interval)
+    hist = 3000000
+    for t in range(nthreads):
+        for pos, ((fn, data, on_shared), res) in enumerate(zip(plans[t], results[t] + [(b"", 1, "thread-died")] * (ncalls - len(results[t])))):
+            out, err, cls = res
+            rec.add({"op": "ad.call", "key": list(key), "iv": list(iv), "fn": fn, "data": list(data), "out": Raw("res", out), "err": err, "cls": cls,
+                     "alias": 0, "tag": "threads-preempted-inside-calls", "hist": -1, "pos": pos, "shared": on_shared, "obj": t}, cost=blocks(len(data)) + 2)
+    rec.settle()
     # pad
     for n in list(range(0, 66)) + [r.randint(66, 300) for _ in range(10)]:
         d = datum(r.choice(["random", "zero-tail"]) if n else "zeros", n)
@@ -853,14 +973,15 @@ def run(tier):
 
         # ---- record events from the real code
         rc, rm, ra = Rec(), Rec(), Rec()
-        record_cipher(rc, rep, r, tier, iopool)
+        pairs = collision_pairs(r)
+        record_cipher(rc, rep, r, tier, iopool, pairs)
         oracle_jobs = []
-        record_modes(rm, r, tier, oracle_jobs)
+        record_modes(rm, r, tier, oracle_jobs, pairs)
         n_mode_groups = rm.grp
         n_sc = record_feeders(rm, r, tier, shapes)
         n_feeders = rm.grp - n_mode_groups
         n_streams = record_streams(rm, r, tier, shapes)
-        record_adapter(ra, r, tier)
+        record_adapter(ra, r, tier, pairs)
         for rec_ in (rc, rm, ra):
             rec_.settle()                                            # (every driver settles its own histories; nothing may stay unconverted)
         # whole streams through OpenSSL
@@ -1019,7 +1140,14 @@ def run(tier):
         st = res["adapter"][1]
         rep.add_trace("Trace_Adapter (create_AES128 encrypt/decrypt/mac histories, round trips for every length 1..64, pad, base class)", st,
                       count(ra, lambda e: True), extra={"round trips": count(ra, lambda e: e["op"] == "ad.rt"),
-                                                        "history calls": count(ra, lambda e: e["op"] == "ad.call" and e.get("hist", -1) >= 0)})
+                                                        "history calls": count(ra, lambda e: e["op"] == "ad.call" and e.get("hist", -1) >= 0),
+                                                        "calls made by 4 threads pre-empted inside calls, shared and per-thread objects "
+                                                        "(beyond the stated quantifier: there whole calls interleave)":
+                                                            count(ra, lambda e: e.get("tag") == "threads-preempted-inside-calls")})
+        kc = lambda rec: count(rec, lambda e: str(e.get("tag", "")).startswith("key-collision-"))
+        rep.cov["parts"]["colliding keys"] = {
+            "kind": "inputs", "pairs": len(pairs), "digests": sorted({p[0] for p in pairs}), "key lengths": [16, 24, 32],
+            "events (block cipher / modes / adapter), counted in the parts above": [kc(rc), kc(rm), kc(ra)]}
         for e in (first(rc, lambda e: e["op"] == "tab" and e["name"] == "T1" and e["x"] == 1), first(rc, lambda e: e["op"] == "blk"),
                   first(rc, lambda e: e["op"] == "oblk"), first(rm, lambda e: e["op"] == "m.call" and e["err"] == 0 and 0 < len(e["data"]) <= 16),
                   first(rm, lambda e: e["op"] == "f.feed" and e["fin"] == 1 and e["err"] == 0), first(ra, lambda e: e["op"] == "ad.rt" and len(e["data"]) == 5)):
@@ -1049,6 +1177,8 @@ def run(tier):
         "feeder padding none is defined for >= 1 whole block (block modes); CFB with padding none and the lenient PKCS#7 strip "
         "(only the last byte is inspected, 0 removes the block) are modelled as pyaes behaves - not part of the property",
         "adapter domain: data length >= 1, decrypt input a positive multiple of 16 bytes, 16-byte keys",
+        "the multi-thread adapter histories (pre-emption INSIDE a call on a shared object) go beyond the property's quantifier "
+        "(interleavings of whole calls); they are judged like any other call and the clean tree passes them",
     ]
     return rep
 
